@@ -87,7 +87,8 @@ impl<'tcx> Cx<'tcx> {
                     }
                 }
                 let fndef = if let ty::FnDef(d, _) = ty.kind() { esc(&self.tcx.def_path_str(*d)) } else { "null".into() };
-                format!("{{\"op\":\"const\",\"ty\":{},\"val\":{},\"fn\":{}}}", esc(&ty.to_string()), val, fndef)
+                let cdbg = if val == "null" && fndef == "null" { esc(&format!("{:?}", c.const_).chars().take(160).collect::<String>()) } else { "null".into() };
+                format!("{{\"op\":\"const\",\"ty\":{},\"val\":{},\"fn\":{},\"cdbg\":{}}}", esc(&ty.to_string()), val, fndef, cdbg)
             }
             #[allow(unreachable_patterns)]
             _ => format!("{{\"op\":\"other\",\"dbg\":{}}}", esc(&format!("{:?}", o))),
